@@ -23,9 +23,18 @@ from gpytorch import settings as gs
 from harness.lib import common as C
 
 COQ_TARGETS = ["Models/C07_psd.vo", "Proofs/C07_psd.vo", "Proofs/C07_real.vo"]
+ROUNDING_RULE = ("thresholds are max(fixed scale-relative tolerance, 8 * n * b) (eigenvalues) / max(.., 8 * b) (symmetry, monotonicity) "
+                 "where b is an input-dependent bound on the float64 error of one matrix entry, computed and recorded per case: "
+                 "kernels.kernel.sq_dist forms r^2 = |x|^2+|y|^2-2x.y on inputs/lengthscale centred on their mean, so "
+                 "eps_sq = (d+2)*eps64*2*max|x-mean|^2/lengthscale^2; kernels of r^2 (RBF, RQ) err by <= eps_sq, kernels of r = sqrt(r^2) "
+                 "(Matern, PiecewisePolynomial, Cosine, Arc, Cylindrical) by <= L*sqrt(eps_sq) when two rows are closer than sqrt(eps_sq) "
+                 "(sqrt is not Lipschitz at 0) and by L*eps_sq/(2 r_min) otherwise; posteriors multiply b by the amplification "
+                 "(1+|A^-1 k|_1)^2 of the solve (variational: also by 1+|S| cond(K_zz)); b ~ 1e-15 on ordinary geometries, so the "
+                 "fixed tolerances (1e-10*scale symmetry, 1e-8*scale eigenvalues / monotonicity) apply there")
 LEVEL_NOTE = ("theorems: PSD of Gram-type kernels / closure / conditioning / clamps for all sizes (Coq); PSD of RBF, Matern, "
               "RQ, Periodic, ... Gram matrices is NOT proved (Bochner) and is tested: float64 eigvalsh plus an exact, "
-              "proved-sound PSD certificate check run by the Coq model on the implementation's matrices (tie C, differential)")
+              "proved-sound PSD certificate check run by the Coq model on the implementation's matrices (tie C, differential); "
+              + ROUNDING_RULE)
 IMPORTS = ("From Coq Require Import List ZArith QArith Qcanon.\n"
            "From GPV Require Import Base.LinAlg Base.Exec Base.Expr Models.C07_psd.")
 RUN_DEF = "Definition run := run_job."
@@ -36,6 +45,7 @@ T = torch.tensor
 
 EIG_TOL = 1e-8          # smallest eigenvalue >= -EIG_TOL * scale
 SYM_TOL = 1e-10         # |A - A^T| <= SYM_TOL * scale
+CERT_SLACK = 1.25       # the exact certificate is for round(A) + CERT_SLACK*EIG_TOL*scale*I
 CERT_MAX = 12           # exact certificate for sizes <= CERT_MAX
 GRID_BITS = 44          # entries rounded to scale * 2^-GRID_BITS before the exact check
 MONO_TOL = 1e-8         # variance may not increase by more than MONO_TOL * scale when data are added
@@ -261,27 +271,83 @@ def scale_of(A):
     return max(A.abs().max().item(), 1e-300)
 
 
-def check_matrix(out, key, what, desc, A, jobs, owner, tol=EIG_TOL, cert=True, ref=None, symtol=SYM_TOL):
+EPS64 = 2.220446049250313e-16
+KB = 8.0                # safety constant on the rounding bound
+# kernels that take sqrt(r^2) (sqrt is not Lipschitz at 0): Lipschitz constant of k in the scaled distance r
+SQRT_MODS = [(K.MaternKernel, 1.0), (K.Matern52KernelGrad, 4.0), (K.PiecewisePolynomialKernel, 12.0), (K.CosineKernel, math.pi),
+             (K.CylindricalKernel, 4.0), (K.ArcKernel, 4.0)]
+# kernels that never form |x|^2+|y|^2-2x.y (direct differences / explicit features): no cancellation term
+NO_SQDIST = (K.PeriodicKernel, K.RFFKernel, K.SpectralDeltaKernel, K.SpectralMixtureKernel)
+
+
+def entry_rounding(kern, pts):
+    """Relative (to the matrix scale) bound on the float64 error of one kernel entry caused by kernels.kernel.sq_dist, which
+    evaluates r^2 = |x|^2 + |y|^2 - 2 x.y on inputs divided by the lengthscale and centred on their mean:
+        eps_sq = (d+2) * eps64 * 2 * max_i |x_i - mean|^2 / lengthscale^2         (cancellation; d+2 accumulated terms)
+    kernels that are functions of r^2 (RBF, RQ, ...; |dk/dr^2| <= 1):  eps_sq
+    kernels that take r = sqrt(r^2) (Matern, PiecewisePolynomial, Cosine, Arc, Cylindrical; Lipschitz constant L in r):
+        L * r_err,  r_err = sqrt(eps_sq) if some pair of rows is closer than sqrt(eps_sq) (duplicates included)
+                            else eps_sq / (2 r_min)        (r_min = smallest scaled distance, from direct differences)
+    summed over the distance-based sub-kernels of `kern`.  Returns (bound, details)."""
+    pts = pts.reshape(-1, pts.shape[-1])
+    xc = pts - pts.mean(0, keepdim=True)
+    d = pts.shape[-1]
+    total, det = 0.0, []
+    for m in kern.modules():
+        if not isinstance(m, K.Kernel) or isinstance(m, NO_SQDIST):
+            continue
+        if isinstance(m, K.CosineKernel):
+            ell = m.period_length.min().item()
+        elif getattr(m, "has_lengthscale", False) and m.lengthscale is not None:
+            ell = m.lengthscale.min().item()
+        else:
+            continue
+        R2 = (xc / ell).pow(2).sum(-1).max().item()
+        eps_sq = (d + 2) * EPS64 * 2.0 * R2
+        L = next((l for cls, l in SQRT_MODS if isinstance(m, cls)), None)
+        if L is None:
+            total += eps_sq
+            det.append(dict(mod=type(m).__name__, ell=ell, eps_sq=eps_sq))
+            continue
+        r = torch.cdist(pts / ell, pts / ell)
+        n = r.shape[0]
+        r_min = (r + torch.eye(n) * 1e300).min().item() if n > 1 else 1e300
+        r_err = math.sqrt(eps_sq) if r_min <= math.sqrt(eps_sq) else eps_sq / (2.0 * r_min)
+        total += L * r_err
+        det.append(dict(mod=type(m).__name__, ell=ell, eps_sq=eps_sq, r_min=r_min, r_err=r_err, L=L))
+    return total, det
+
+
+def check_matrix(out, key, what, desc, A, jobs, owner, tol=EIG_TOL, cert=True, ref=None, symtol=SYM_TOL, rb=0.0):
     """float checks now; queue the exact certificate.  A: square float64 tensor.  `ref` = magnitude of the quantities A
-    was computed from (a posterior is prior - explained: its rounding error is relative to the PRIOR's size)."""
+    was computed from (a posterior is prior - explained: its rounding error is relative to the PRIOR's size).
+    `rb` = absolute bound on the rounding error of one entry of A (entry_rounding * scale * amplification), so
+    symmetry threshold = max(symtol*scale, KB*rb), eigenvalue threshold = max(tol*scale, KB*n*rb)."""
     n = A.shape[-1]
     if not torch.isfinite(A).all():
         out.fail(key + ":nonfinite", what + ": non-finite entries", desc, impl=A.tolist())
         return False
     sc = max(scale_of(A), ref or 0.0)
+    symthr = max(symtol * sc, KB * rb)
+    eigthr = max(tol * sc, KB * n * rb)
+    if eigthr > tol * sc:
+        out.count("threshold widened by the sq_dist rounding bound")
     asym = (A - A.T).abs().max().item()
-    if asym > symtol * sc:
-        out.fail(key + ":asymmetric", "%s is not symmetric: max|A-A^T| = %.3e (scale %.3e)" % (what, asym, sc), desc, impl=A.tolist())
+    if asym > symthr:
+        out.fail(key + ":asymmetric", "%s is not symmetric: max|A-A^T| = %.3e > %.3e (scale %.3e, entry rounding bound %.3e)"
+                 % (what, asym, symthr, sc, rb), desc, impl=A.tolist())
         return False
     As = (A + A.T) / 2
     ev = torch.linalg.eigvalsh(As)
     lmin = ev.min().item()
-    if lmin < -tol * sc:
-        out.fail(key + ":eig", "%s is not PSD: smallest eigenvalue %.6e < -%g * scale (scale %.3e)" % (what, lmin, tol, sc),
-                 desc, impl=A.tolist(), model="eigenvalues " + repr(ev.tolist()))
+    if lmin < -eigthr:
+        out.fail(key + ":eig", "%s is not PSD: smallest eigenvalue %.6e < -%.3e (scale %.3e, entry rounding bound %.3e)"
+                 % (what, lmin, eigthr, sc, rb), desc, impl=A.tolist(), model="eigenvalues " + repr(ev.tolist()))
         return False
     if cert and n <= CERT_MAX:
-        jobs.append(psd_job(As, tol * sc, sc)); owner.append(("psd", key, what, desc, A.tolist(), tol))
+        # float oracle: lambda_min >= -eigthr; exact certificate: round(A) + CERT_SLACK*eigthr*I is PSD.  The slack makes
+        # the certificate succeed on every matrix that passes the float oracle (hint = chol(A + (1+slack)/2 * eigthr))
+        jobs.append(psd_job(As, CERT_SLACK * eigthr, sc, eigthr)); owner.append(("psd", key, what, desc, A.tolist(), CERT_SLACK * eigthr / sc))
     return True
 
 
@@ -289,9 +355,10 @@ def _round_grid(x, g):
     return Fraction(round(C.frac(x) / g)) * g
 
 
-def psd_job(As, shift, sc):
+def psd_job(As, shift, sc, base):
     """JPsd on the symmetrised matrix rounded to sc*2^-GRID_BITS, shifted by `shift` (exact value of the float); the
-    certificate hint is the float64 Cholesky factor of As + shift/2, rounded to sqrt(sc)*2^-40"""
+    certificate hint is the float64 Cholesky factor of As + (shift+base)/2 (base = the float oracle's tolerance < shift),
+    rounded to sqrt(sc)*2^-40"""
     n = As.shape[-1]
     g = Fraction(2) ** (math.frexp(sc)[1] - GRID_BITS)
     rows = [[None] * n for _ in range(n)]
@@ -299,7 +366,7 @@ def psd_job(As, shift, sc):
         for j in range(i + 1):
             rows[i][j] = rows[j][i] = _round_grid(As[i, j].item(), g)
     try:
-        L = torch.linalg.cholesky(As + 0.5 * shift * torch.eye(n))
+        L = torch.linalg.cholesky(As + 0.5 * (shift + base) * torch.eye(n))
     except Exception:
         L = torch.zeros(n, n)
     gl = Fraction(2) ** (math.frexp(math.sqrt(sc))[1] - 40)
@@ -333,6 +400,7 @@ def gram_matrix(case):
     kern.eval()
     with torch.no_grad():
         Kd = kern(X).to_dense()
+        gram_matrix.last_rounding = entry_rounding(kern, X)
         try:
             diag = kern(X, diag=True)
             diag = diag if isinstance(diag, torch.Tensor) else diag.to_dense()
@@ -351,10 +419,13 @@ def run_gram(out, case, jobs, owner):
         out.fail("gram-exception:%s:%s" % (spec["fam"], type(e).__name__), "kernel evaluation raised %r" % e, desc)
         return
     nt = Kd.shape[-1] >= 2 and (Kd - torch.diag(torch.diagonal(Kd))).abs().max().item() > 0
-    out.case(dict(kind="gram", fam=spec["fam"], geom=case["geom"], ls=spec["lsmode"], n=case["n"], d=spec["d"], pseed=case["pseed"]),
-             nt, label="gram:" + spec["fam"])
+    rel, det = gram_matrix.last_rounding
+    rb = rel * scale_of(Kd)
+    desc["rounding"] = dict(entry_bound=rb, parts=det)
+    out.case(dict(kind="gram", fam=spec["fam"], geom=case["geom"], ls=spec["lsmode"], n=case["n"], d=spec["d"], pseed=case["pseed"],
+                  entry_rounding_bound=rb), nt, label="gram:" + spec["fam"])
     out.count("geom=" + case["geom"]); out.count("ls=" + spec["lsmode"]); out.count("size=%d" % Kd.shape[-1])
-    ok = check_matrix(out, key, "Gram matrix K(x,x) of %s" % spec["fam"], desc, Kd, jobs, owner)
+    ok = check_matrix(out, key, "Gram matrix K(x,x) of %s" % spec["fam"], desc, Kd, jobs, owner, rb=rb)
     if ok:
         # the diag=True shortcut must report the same non-negative variances
         sc = scale_of(Kd)
@@ -362,7 +433,7 @@ def run_gram(out, case, jobs, owner):
         if diag is None:
             out.count("gram: diag=True call form unavailable")
         if dd.shape[0] == Kd.shape[-1]:
-            if (dd < -EIG_TOL * sc).any() or (dd - torch.diagonal(Kd)).abs().max().item() > 1e-8 * sc:
+            if (dd < -EIG_TOL * sc).any() or (dd - torch.diagonal(Kd)).abs().max().item() > max(1e-8 * sc, KB * rb):
                 out.fail(key + ":diag", "kernel(x, diag=True) is negative or differs from the diagonal of K(x,x)", desc,
                          impl=dd.tolist(), model=torch.diagonal(Kd).tolist())
 
@@ -414,6 +485,26 @@ def post_setup(case):
     return T(X), T(y), T(Xs)
 
 
+def train_noise(case, n):
+    if case["lik"] == "gaussian":
+        return T([case["noise"]] * n)
+    nr = random.Random(case["pseed"] + 17)
+    return T([case["noise"] * nr.choice([1.0, 3.0, 10.0]) for _ in range(n)])
+
+
+def amplification(kern, X, Xs, noise):
+    """how an entry error delta of the kernel matrices shows up in K** - K*x A^-1 Kx*:
+    |d entry| <= (1 + |w_i|_1)(1 + |w_j|_1) delta  with  w_j = A^-1 K_x*[:, j]  (first-order perturbation of the quadratic form);
+    computed from the implementation's own float matrices, maximum over the prefixes used by the monotonicity check"""
+    amp = 1.0
+    with torch.no_grad():
+        for k in range(1, X.shape[0] + 1):
+            A = kern(X[:k]).to_dense() + torch.diag(noise[:k])
+            W = torch.linalg.solve(A, kern(X[:k], Xs).to_dense())
+            amp = max(amp, (1.0 + W.abs().sum(0).max().item()) ** 2)
+    return amp
+
+
 def make_gp(case, X, y, k=None):
     """exact GP on the first k training points (same hyper-parameters for every k)"""
     k = len(X) if k is None else k
@@ -421,9 +512,7 @@ def make_gp(case, X, y, k=None):
     if case["lik"] == "gaussian":
         lik = gpytorch.likelihoods.GaussianLikelihood(); lik.noise = case["noise"]
     else:
-        nr = random.Random(case["pseed"] + 17)
-        noise = T([case["noise"] * nr.choice([1.0, 3.0, 10.0]) for _ in range(len(X))])
-        lik = gpytorch.likelihoods.FixedNoiseGaussianLikelihood(noise[:k])
+        lik = gpytorch.likelihoods.FixedNoiseGaussianLikelihood(train_noise(case, len(X))[:k])
     m = GP(X[:k], y[:k], lik, kern)
     m.eval(); lik.eval()
     return m, lik
@@ -478,6 +567,11 @@ def run_post(out, case, jobs, owner, rng):
         A = kern(X).to_dense() + case["noise"] * torch.eye(n)
     sc = max(scale_of(Kss), 1e-300)
     cond = torch.linalg.cond(A).item()
+    # input-dependent rounding bound of one posterior-covariance entry (sq_dist cancellation, amplified by the solve)
+    rel, det = entry_rounding(kern, torch.cat([X, Xs]))
+    amp = amplification(kern, X, Xs, train_noise(case, n))
+    rb = rel * sc * amp
+    base["rounding"] = dict(entry_bound=rb, kernel_entry_bound=rel * sc, amplification=amp, parts=det)
     flags = ["default", "eager", "noeager"]
     if cond < 300.0:
         flags += ["fast_pred_var", "fast_pred_var+noeager", "cg"]
@@ -489,7 +583,7 @@ def run_post(out, case, jobs, owner, rng):
         desc = dict(base, flag=flag)
         key = "post:%s:%s:%s" % (spec["fam"], case["geom"], flag)
         out.case(dict(kind="post", fam=spec["fam"], geom=case["geom"], ls=spec["lsmode"], n=n, t=t, noise=case["noise"], lik=case["lik"],
-                      test=case["test"], flag=flag, pseed=case["pseed"]), n >= 2, label="post:" + flag)
+                      test=case["test"], flag=flag, pseed=case["pseed"], entry_rounding_bound=rb), n >= 2, label="post:" + flag)
         out.count("post-fam=" + spec["fam"])
         try:
             with torch.no_grad(), warnings.catch_warnings(), flag_cm(flag):
@@ -519,15 +613,16 @@ def run_post(out, case, jobs, owner, rng):
             continue
         cert = flag in ("default",)
         st = ITER_TOL if iterative else SYM_TOL
-        check_matrix(out, key + ":cov", "exact posterior covariance", desc, cov, jobs, owner, tol, cert, ref=sc, symtol=st)
+        check_matrix(out, key + ":cov", "exact posterior covariance", desc, cov, jobs, owner, tol, cert, ref=sc, symtol=st, rb=rb)
         check_matrix(out, key + ":prior-minus-post", "prior minus posterior covariance", desc, Kss - cov, jobs, owner, tol, cert,
-                     ref=sc, symtol=st)
-        check_matrix(out, key + ":marginal", "likelihood(posterior) covariance", desc, mcov, jobs, owner, tol, cert, ref=sc, symtol=st)
+                     ref=sc, symtol=st, rb=rb)
+        check_matrix(out, key + ":marginal", "likelihood(posterior) covariance", desc, mcov, jobs, owner, tol, cert, ref=sc, symtol=st,
+                     rb=rb)
         mv = gs.min_variance.value(var.dtype)
         if (var < mv).any() or not torch.isfinite(sd).all() or (sd < 0).any():
             out.fail(key + ":variance-floor", "posterior variance below settings.min_variance or stddev not a non-negative real",
                      desc, impl=dict(var=var.tolist(), stddev=sd.tolist()), model=mv)
-        if (var > torch.diagonal(Kss) + tol * sc + mv).any():
+        if (var > torch.diagonal(Kss) + max(tol * sc, KB * rb) + mv).any():
             out.fail(key + ":variance-gt-prior", "posterior variance exceeds the prior variance", desc, impl=var.tolist(),
                      model=torch.diagonal(Kss).tolist())
         if (mvar - var < lb - 1e-9 * max(sc, 1.0)).any():
@@ -550,14 +645,16 @@ def run_post(out, case, jobs, owner, rng):
                      label="post:batch")
             for b in range(2):
                 scb = scale_of(Kb[b])
-                check_matrix(out, key + ":cov", "batched exact posterior covariance (element %d)" % b, desc, covb[b], jobs, owner, ref=scb)
+                rbb = rel * scb * amplification(kern, Xb[b], Xsb[b], T([case["noise"]] * n))
+                check_matrix(out, key + ":cov", "batched exact posterior covariance (element %d)" % b, desc, covb[b], jobs, owner, ref=scb,
+                             rb=rbb)
                 check_matrix(out, key + ":prior-minus-post", "batched prior minus posterior covariance (element %d)" % b, desc,
-                             Kb[b] - covb[b], jobs, owner, ref=scb)
+                             Kb[b] - covb[b], jobs, owner, ref=scb, rb=rbb)
         except Exception as e:
             out.fail("post-exception:%s:batch:%s" % (spec["fam"], type(e).__name__), "batched posterior computation raised %r" % e, desc)
     # monotonicity: add the observations one at a time (fresh model per prefix, same hyper-parameters)
     desc = dict(base, flag="monotone")
-    key = "post:%s:%s:monotone" % (spec["fam"], case["geom"])
+    key = "post:%s:%s:%s:monotone" % (spec["fam"], case["geom"], spec["lsmode"])
     try:
         with torch.no_grad(), warnings.catch_warnings():
             warnings.simplefilter("ignore")
@@ -567,7 +664,7 @@ def run_post(out, case, jobs, owner, rng):
                 model, lik = make_gp(case, X, y, k)
                 cur = torch.diagonal(model(Xs).covariance_matrix).clone()
                 trail.append(cur.tolist())
-                if (cur > prev + MONO_TOL * sc).any():
+                if (cur > prev + max(MONO_TOL * sc, KB * rb)).any():
                     out.fail(key, "posterior variance increased when observation %d was added" % k, dict(desc, k=k), impl=trail)
                     break
                 prev = cur
@@ -637,12 +734,15 @@ def run_var(out, case, jobs, owner):
             model = SVGP(T(Z), case["strat"], case["dist"], kern)
             vd = model.variational_strategy._variational_distribution
             vd.variational_mean.data = T([prng.uniform(-1, 1) for _ in range(m)])
+            snorm = 0.0
             if case["dist"] == "chol":
                 L = torch.tril(T([[prng.uniform(-1, 1) for _ in range(m)] for _ in range(m)]))
                 L = L - torch.diag(torch.diagonal(L)) + torch.diag(T([prng.choice([1e-3, prng.uniform(0.2, 1.5)]) for _ in range(m)]))
                 vd.chol_variational_covar.data = L
+                snorm = (L @ L.T).abs().sum(0).max().item()
             elif case["dist"] == "meanfield":
                 vd._variational_stddev.data = T([prng.choice([1e-3, prng.uniform(0.2, 1.5)]) for _ in range(m)])
+                snorm = vd._variational_stddev.data.pow(2).max().item()
             lik = gpytorch.likelihoods.GaussianLikelihood(); lik.noise = prng.choice([1e-4, 1e-2, 0.3])
             if case["mode"] == "eval":
                 model.eval(); lik.eval()
@@ -657,9 +757,19 @@ def run_var(out, case, jobs, owner):
                  "variational posterior raised %r" % e, desc)
         return
     with torch.no_grad():
-        sc = max(scale_of(cov), scale_of(build_kernel(spec)(T(Xs)).to_dense()))
-    check_matrix(out, key + ":cov", "variational predictive covariance q(f)", desc, cov, jobs, owner, ref=sc)
-    check_matrix(out, key + ":marginal", "likelihood(q(f)) covariance", desc, mcov, jobs, owner, ref=sc)
+        k0 = build_kernel(spec)
+        sc = max(scale_of(cov), scale_of(k0(T(Xs)).to_dense()))
+        # rounding bound of one entry of K** + A^T (S - I) A: kernel-entry bound, amplified by the interpolation weights
+        # w = (K_zz + jitter)^-1 K_zx and by |S| cond(K_zz + jitter) (perturbation of w inside w^T S' w)
+        rel, det = entry_rounding(k0, torch.cat([T(Z), T(Xs)]))
+        Kzz = k0(T(Z)).to_dense() + 1e-6 * torch.eye(m)
+        Kzzi = torch.linalg.inv(Kzz)
+        W = Kzzi @ k0(T(Z), T(Xs)).to_dense()
+        amp = (1.0 + W.abs().sum(0).max().item()) ** 2 * (1.0 + snorm * Kzz.abs().sum(0).max().item() * Kzzi.abs().sum(0).max().item())
+        rb = rel * sc * amp
+    desc["rounding"] = dict(entry_bound=rb, kernel_entry_bound=rel * sc, amplification=amp, parts=det)
+    check_matrix(out, key + ":cov", "variational predictive covariance q(f)", desc, cov, jobs, owner, ref=sc, rb=rb)
+    check_matrix(out, key + ":marginal", "likelihood(q(f)) covariance", desc, mcov, jobs, owner, ref=sc, rb=rb)
     mv = gs.min_variance.value(var.dtype)
     if (var < mv).any() or not torch.isfinite(sd).all() or (sd < 0).any():
         out.fail(key + ":variance-floor", "variational variance below settings.min_variance or stddev not a non-negative real", desc,
@@ -796,10 +906,11 @@ def run(out, ctx):
                 "(16 kernels x 6 geometries x noise {1e-4,1e-2,0.3} x Gaussian/FixedNoise x test points fresh / on training "
                 "points, paths default / eager kernels / max_eager_kernel_size(1) / fast_pred_var (both) / CG) with marginals and one-at-a-time monotonicity; variational "
                 "posteriors (whitened/unwhitened x Cholesky/MeanField/Delta); variance clamp and noise-floor grids. "
-                "non-trivial = matrix has a non-zero off-diagonal / n_train >= 2" % len(FAMILIES))
-    out.extra["tolerances"] = {"eig": "lambda_min >= -%g*max|A|" % EIG_TOL, "symmetry": "%g*max|A|" % SYM_TOL,
-                                "certificate": "exact: round(A, scale*2^-%d) + %g*scale*I = Lf Lf^T + diagonally dominant remainder, sizes <= %d" % (GRID_BITS, EIG_TOL, CERT_MAX),
-                                "lanczos/cg paths (cond < 300 only)": ITER_TOL, "monotone": "%g*scale" % MONO_TOL,
+                "non-trivial = matrix has a non-zero off-diagonal / n_train >= 2. " % len(FAMILIES)) + ROUNDING_RULE
+    out.extra["tolerances"] = {"eig": "lambda_min >= -max(%g*scale, 8*n*b)" % EIG_TOL, "symmetry": "max(%g*scale, 8*b)" % SYM_TOL,
+                                "b": "per-case entry rounding bound (see rule); recorded as entry_rounding_bound / rounding in every case",
+                                "certificate": "exact: round(A, scale*2^-%d) + %g*scale*I = Lf Lf^T + diagonally dominant remainder, sizes <= %d" % (GRID_BITS, CERT_SLACK * EIG_TOL, CERT_MAX),
+                                "lanczos/cg paths (cond < 300 only)": ITER_TOL, "monotone": "max(%g*scale, 8*b)" % MONO_TOL,
                                 "clamps": "exact", "noise value vs model": "rtol 1e-9 (torch softplus threshold 20)"}
     for case in gram_cases(rng, tier):
         run_gram(out, case, jobs, owner)
@@ -829,7 +940,13 @@ def run(out, ctx):
                 jobs.append("(JFixedNoise %s %s)" % (C.qc_lit(mn), C.qc_vec(case["noise"]))); owner.append(("fixed", case, got, added, mn))
         except Exception as e:
             out.fail("noise-exception:%s:%s" % (case.get("lik", "fixed"), type(e).__name__), "likelihood noise raised %r" % e, case)
-    res = C.coq_run_cases("C07", IMPORTS, RUN_DEF, jobs, shard=max(8, (len(jobs) + 15) // 16))
+    # the big Gram matrices come first: deal the jobs round-robin so that the 16 coqc shards are balanced
+    order = list(range(len(jobs)))
+    random.Random(0).shuffle(order)
+    res_p = C.coq_run_cases("C07", IMPORTS, RUN_DEF, [jobs[i] for i in order], shard=max(8, (len(jobs) + 15) // 16))
+    res = [None] * len(jobs)
+    for k, i in enumerate(order):
+        res[i] = res_p[k]
     for ow, r in zip(owner, res):
         judge(out, ow, r)
     out.extra["certificates"] = sum(1 for o in owner if o[0] == "psd")
